@@ -439,6 +439,7 @@ def run(rep, tier, seed, only=None):
                   "dictionary (CrossHair)": "<=2 entries, keys <=3 characters, values <=3 bytes", "dictionary (concrete companion)": "all keys of length <=2 over {a, NUL, é, €, emoji}",
                   "circuits": "feature family + special shapes (0 inputs with 2^k gates, n-ary, constants with operands, out-of-topological storage) + seeded <=5 inputs/<=10 gates"}
     rep.outside = ["numbers/lengths beyond the listed bit budget (per-bit forking makes the executor enumerate)", "dictionaries with more than 2 entries or longer keys under CrossHair"]
+    rep.bounds['histories'] = 'decode - caller edits the result - decode the same bytes again (every encodable circuit of the family)'
     rep.rule = "cases: (lengths, offset) bit-I/O explorations with proven path coverage; CrossHair conditions; circuits through the codec (z3 equivalence of decoded outputs)"
     rep.explanation = ("bit I/O: every path of the real writer/reader over symbolic numbers is explored, coverage proven by z3, round-trip decided per path; "
                        "dictionary codec: CrossHair over symbolic str/bytes (inconclusive results are reported as such); circuits: z3 equivalence original vs decoded")
